@@ -20,6 +20,7 @@ RULE = ("(a) exhaustive: for each degree 0..8 every assignment of two values to 
 ASSUMPTIONS = ["(b) requires recovery only of simple, well separated real roots inside the condition by >= 1e-6 whose predicted "
                "rounding error eps*sum|a_i r^i|/|p'(r)| is below 1e-9; nothing is required of cluster members or complex roots",
                "the generic helpers are straight-line polynomial code per degree (read)"]
+RULE += ' Also: Pairs of simple roots a few 1e-6 apart on either side of the condition boundary.'   # added after the seeded-change rounds (DESIGN.md section 10)
 CONFIGS = ['scipy']
 BUDGET = {'quick': 20000, 'thorough': 600000}
 EXHAUSTIVE_NOTE = "degrees 0..8: all 2^(n+1) two-valued control assignments x (n+1) t values, exact Fractions"
